@@ -80,3 +80,10 @@ fn zc_and_le_shims() {
     assert!(q.to_le_bytes() == le64);
     assert!(q.as_bytes() == &le64[..]);
 }
+
+/// D14 (@default Checksum): derived Default is the zero accumulator
+#[kani::proof]
+fn default_checksum() {
+    let c = Checksum::default();
+    assert!(c.value == 0);
+}
